@@ -151,6 +151,27 @@ func (x *Run) callFunc(fr *Frame, st *State, fn *ssa.Function, args []Val, bindi
 			return outs
 		}
 	}
+	// --- explicit self call of a target that Go code cannot name (closures) ---
+	if x.isVerifPkg(fn) && (strings.HasPrefix(fn.Name(), "CallTarget")) && fr.con != nil && fr.con.Target != nil {
+		var real []Val
+		if len(args) == 1 && args[0].Tup != nil {
+			for _, e := range args[0].Tup {
+				if e.Inner != nil {
+					real = append(real, *e.Inner)
+				} else if e.S != "" {
+					real = append(real, e)
+				}
+			}
+		}
+		tgt := fr.con.Target
+		bindings := x.targetBindings(x.contractFrame(fr), st)
+		if fr.mode == ModeContractVerify {
+			f := &Frame{fn: tgt, env: map[ssa.Value]Val{}, names: map[string]Val{}, parent: fr, mode: ModeNormal, cut: map[*ssa.BasicBlock]bool{}, unroll: map[*ssa.BasicBlock]int{}, depth: fr.depth + 1, selfRun: true}
+			st.trace = append(st.trace, "self")
+			return x.runFrame(f, real, bindings, st)
+		}
+		return x.useSelfCall(fr, st, tgt, real, site)
+	}
 	// --- self call inside a contract function ---
 	if fr.con != nil && fr.con.Target == fn && (fr.mode == ModeContractVerify || fr.mode == ModeContractUse) {
 		if fr.mode == ModeContractVerify {
@@ -672,4 +693,39 @@ func (x *Run) modelSortFunc(fr *Frame, st *State, cc *ssa.CallCommon, args []Val
 	x.mu.Unlock()
 	st.events = append(st.events, Event{Name: "call:slices.SortFunc", Args: args})
 	return single(st, Val{T: "unit", S: SUnit})
+}
+
+// targetBindings: values of the captured variables of a closure target, created
+// once per contract run (arbitrary values; verif.FreeVar reads them).
+func (x *Run) targetBindings(cf *Frame, st *State) []Val {
+	if cf == nil || cf.con == nil || cf.con.Target == nil {
+		return nil
+	}
+	if cf.conBindings != nil {
+		return cf.conBindings
+	}
+	tgt := cf.con.Target
+	var bindings []Val
+	for _, fv := range tgt.FreeVars {
+		el := fv.Type().Underlying().(*types.Pointer).Elem()
+		if isStruct(el) {
+			ref := x.freshVal(st, "fv_"+fv.Name(), fv.Type())
+			st.assume(fmt.Sprintf("(> %s 0)", ref.T))
+			bindings = append(bindings, ref)
+		} else {
+			c := x.newCell(fv.Name(), el)
+			v := x.freshVal(st, "fv_"+fv.Name(), el)
+			if _, isPtr := types.Unalias(el).Underlying().(*types.Pointer); isPtr {
+				st.assume(fmt.Sprintf("(> %s 0)", v.T))
+			}
+			st.cells[c] = v
+			a := &Addr{Kind: ACell, Cell: c, Ty: el}
+			bindings = append(bindings, Val{T: x.ptrTerm(a), S: SInt, Ty: fv.Type(), Addr: a})
+		}
+	}
+	if bindings == nil {
+		bindings = []Val{}
+	}
+	cf.conBindings = bindings
+	return bindings
 }
